@@ -15,16 +15,16 @@ package sm3
 //@ uf hs_appv Int
 //@ uf digestbyte Int 0 255
 
-//@ assume func (*sm3.SM3).Reset#int
+//@ assume func (*sm3.SM3).Reset#ext
 //@ assigns *sm3, hs(sm3)
 //@ ensures empty: hs(sm3) == hs_empty()
 
-//@ assume func (*sm3.SM3).Write#int
+//@ assume func (*sm3.SM3).Write#ext
 //@ assigns *sm3, hs(sm3)
 //@ ensures app: hs(sm3) == hsapp(old(hs(sm3)), data)
 //@ ensures n: n == len(data) && !nonnil(err)
 
-//@ assume func (*sm3.SM3).Sum#int
+//@ assume func (*sm3.SM3).Sum#ext
 //@ case room: cap(in) - len(in) >= 32
 //@ ensures len: len(result) == len(in) + 32
 //@ ensures prefix: forall(i, 0, len(in), result[i] == old(in[i]))
@@ -43,45 +43,83 @@ package sm3
 //@ ensures cf: cat8(sm3.h) == sm3_cf(old(cat8(sm3.h)), blk64(msg))
 //@ assigns sm3.h
 
-// The hash state against a byte stream S (logical variable) of which L bytes have been absorbed:
-//   nx = L mod 64, the buffer holds the last nx bytes, h is the chaining value after L/64 blocks.
-//@ define sm3inv0(z, S, L) = 0 <= L && L < pow2(60) && 0 <= z.nx && z.nx < 64 && z.nx == L & 63 && cat8(z.h) == sm3_chain(S, L >> 6)
+// ---- length and buffer logic (integer mode) ----
+// hcat(h) is the 256-bit chaining value as an integer.  The hash state against a byte stream S
+// (logical variable) of which L bytes have been absorbed: the first L - nx bytes (a multiple of
+// 64) are compressed into h, the buffer holds the next nx.  Between public operations nx < 64;
+// inside checkSum the buffer may be exactly full (nx = 64).
+//@ define hcat(h) = h[0]*pow2(224) + h[1]*pow2(192) + h[2]*pow2(160) + h[3]*pow2(128) + h[4]*pow2(96) + h[5]*pow2(64) + h[6]*pow2(32) + h[7]*pow2(0)
+//@ define sm3inv0(z, S, L) = 0 <= L && L < pow2(60) && 0 <= z.nx && z.nx <= 64 && z.nx <= L && (L - z.nx) % 64 == 0 && hcat(z.h) == sm3_chainI(S, (L - z.nx) / 64)
 //@ define sm3buf(z, S, L) = forall(j, 0, z.nx, z.x[j] == S[L - z.nx + j])
 //@ define sm3inv(z, S, L) = sm3inv0(z, S, L) && sm3buf(z, S, L)
+//@ define chain_step(S, k) = 0 <= k ==> sm3_chainI(S, k + 1) == sm3_cfI(sm3_chainI(S, k), sm3_blockI(S, k))
+//@ define chain_zero(S) = sm3_chainI(S, 0) == 0x7380166f4914b2b9172442d7da8a0600a96f30bc163138aae38dee4db0fb0e4e
+// padding of GB/T 32905 5.2: number of blocks of the padded message, 0x80, zeros, 64-bit bit length
+//@ define sm3_nblocks(L) = (L + 9 + 63) / 64
+//@ define sm3_padded(S, L) = S[L] == 128 && forall(i, L + 1, 64 * sm3_nblocks(L) - 8, S[i] == 0) && S[64 * sm3_nblocks(L) - 8] == ((8 * L) / pow2(56)) % 256 && S[64 * sm3_nblocks(L) - 7] == ((8 * L) / pow2(48)) % 256 && S[64 * sm3_nblocks(L) - 6] == ((8 * L) / pow2(40)) % 256 && S[64 * sm3_nblocks(L) - 5] == ((8 * L) / pow2(32)) % 256 && S[64 * sm3_nblocks(L) - 4] == ((8 * L) / pow2(24)) % 256 && S[64 * sm3_nblocks(L) - 3] == ((8 * L) / pow2(16)) % 256 && S[64 * sm3_nblocks(L) - 2] == ((8 * L) / pow2(8)) % 256 && S[64 * sm3_nblocks(L) - 1] == ((8 * L) / pow2(0)) % 256
 
-//@ define chain_step(S, k) = 0 <= k && k < pow2(56) ==> sm3_chain(S, k + 1) == sm3_cf(sm3_chain(S, k), sm3_block(S, k))
-//@ define chain_zero(S) = sm3_chain(S, 0) == sm3_iv()
+// integer-mode view of cf (its contract above is proved in bit-vector mode against sm3_cf;
+// sm3_cfI is that function on integer values)
+//@ assume func (*sm3.SM3).cf#int
+//@ requires len: len(msg) >= 64
+//@ ensures cf: hcat(sm3.h) == sm3_cfI(old(hcat(sm3.h)), be(msg[0:64]))
+//@ assigns sm3.h
 
 //@ func (*sm3.SM3).Reset
-//@ mode bv
+//@ mode int
 //@ logical S bytes
-//@ ensures inv: sm3inv(sm3, S, 0) && sm3.len == 0
+//@ after sm3.len = 0 :: unfold zero: chain_zero(S)
+//@ ensures inv: sm3inv(sm3, S, 0) && sm3.len == 0 && sm3.nx == 0
 //@ assigns *sm3
 
 //@ func (*sm3.SM3).Write
-//@ mode bv
-//@ abstract sm3_cf
+//@ mode int
+//@ prune_branches
+//@ no_merge
 //@ logical S bytes
 //@ logical L int
-//@ requires inv: sm3inv(sm3, S, L)
+//@ requires inv: sm3inv0(sm3, S, L)
+//@ requires buf: sm3buf(sm3, S, L)
 //@ requires data: forall(i, 0, len(data), data[i] == S[L + i])
-//@ requires room: L + len(data) < pow2(60)
+//@ requires room: L + len(data) < pow2(60) && sm3.len < pow2(61)
 //@ case stay: sm3.nx > 0 && len(data) < 64 - sm3.nx
 //@ case fill: sm3.nx > 0 && len(data) >= 64 - sm3.nx
 //@ case empty: sm3.nx == 0
-//@ ensures inv: sm3inv0(sm3, S, L + len(data))
-//@ ensures buf [from inv, req:inv, req:data, copy1, copy2, inv:pos, inv:nx]: sm3buf(sm3, S, L + len(data))
+//@ ensures inv: sm3inv0(sm3, S, L + len(data)) && sm3.nx < 64
+//@ ensures buf: sm3buf(sm3, S, L + len(data))
 //@ ensures len: sm3.len == old(sm3.len) + len(data)
 //@ ensures n: n == len(data) && !nonnil(err)
 //@ assigns *sm3
-//@ after sm3.cf(sm3.x[:]) :: assert alignx: old(L - sm3.nx) == (L >> 6) << 6 && old(sm3.nx) == L & 63 && 0 <= old(sm3.nx) && old(sm3.nx) < 64
-//@ after sm3.cf(sm3.x[:]) :: assert blkx [from req:inv, req:data, copy1, alignx]: forall(j, 0, 64, sm3.x[j] == S[((L >> 6) << 6) + j])
-//@ after sm3.cf(sm3.x[:]) :: unfold first: chain_step(S, L >> 6)
-//@ after sm3.cf(data[:BlockSize]) :: assert blkd [from req:data, inv:pos]: forall(j, 0, 64, data[j] == S[L + off(data) - old(off(data)) + j])
-//@ after sm3.cf(data[:BlockSize]) :: unfold step: chain_step(S, (L + off(data) - old(off(data))) >> 6)
+//@ after sm3.cf(sm3.x[:]) :: assert blkx: forall(j, 0, 64, sm3.x[j] == S[old(L - sm3.nx) + j])
+//@ after sm3.cf(sm3.x[:]) :: assert blkxv [from blkx]: be(sm3.x[0:64]) == sm3_blockI(S, old(L - sm3.nx) / 64)
+//@ after sm3.cf(sm3.x[:]) :: unfold first: chain_step(S, old(L - sm3.nx) / 64)
+//@ after sm3.cf(data[:BlockSize]) :: assert blkd: forall(j, 0, 64, data[j] == S[L + off(data) - old(off(data)) + j])
+//@ after sm3.cf(data[:BlockSize]) :: assert blkdv [from blkd, inv:aligned]: be(data[0:64]) == sm3_blockI(S, (L + off(data) - old(off(data))) / 64)
+//@ after sm3.cf(data[:BlockSize]) :: unfold step: chain_step(S, (L + off(data) - old(off(data))) / 64)
 //@ loop 1
 //@ invariant nx: sm3.nx == 0
 //@ invariant pos: 0 <= off(data) - old(off(data)) && off(data) - old(off(data)) + len(data) == old(len(data)) && same_array(data[0:0], old(data)[off(data) - old(off(data)):off(data) - old(off(data))])
-//@ invariant aligned: (L + off(data) - old(off(data))) & 63 == 0
-//@ invariant chain: cat8(sm3.h) == sm3_chain(S, (L + off(data) - old(off(data))) >> 6)
+//@ invariant aligned: (L + off(data) - old(off(data))) % 64 == 0
+//@ invariant chain: hcat(sm3.h) == sm3_chainI(S, (L + off(data) - old(off(data))) / 64)
 //@ invariant len: sm3.len == old(sm3.len) + old(len(data))
+
+// checkSum: on a state that has absorbed the L message bytes of a padded stream S, writes the
+// chaining value after all blocks of the padded message, i.e. the SM3 digest, big-endian.
+//@ func (*sm3.SM3).checkSum
+//@ mode int
+//@ prune_branches
+//@ no_merge
+//@ logical S bytes
+//@ logical L int
+//@ requires inv: sm3inv(sm3, S, L) && sm3.nx < 64 && sm3.len == L && L < pow2(59)
+//@ requires pad: sm3_padded(S, L)
+//@ requires out: len(out) >= 32
+//@ inst (*sm3.SM3).Write : S = S; L = L + 1
+//@ case one: sm3.nx <= 54
+//@ case edge: sm3.nx == 55
+//@ case two: sm3.nx > 55
+//@ after sm3.cf(sm3.x[:]) :: assert blkf: forall(j, 0, 64, sm3.x[j] == S[64 * (sm3_nblocks(L) - 1) + j])
+//@ after sm3.cf(sm3.x[:]) :: assert blkfv [from blkf]: be(sm3.x[0:64]) == sm3_blockI(S, sm3_nblocks(L) - 1)
+//@ after sm3.cf(sm3.x[:]) :: unfold last: chain_step(S, sm3_nblocks(L) - 1)
+//@ ensures digest: be(out[0:32]) == sm3_chainI(S, sm3_nblocks(L))
+//@ assigns *sm3, out[0:32]
